@@ -931,8 +931,14 @@ def leg_concurrent(r, rounds, flavours, procs=4, ops_per_proc=40):
                 kinds.add((t[0], res[0] if res[0] != "err" else " ".join(res[:3])))
                 if res[0] in ("panic", "hang", "missing"):
                     failures.append(Failure("panic_or_hang_concurrent", i, f"{op[:60]} -> {res[0]} ({fl})", sig={"op": t[0]}))
-                elif t[0] == "write" and res[0] == "ok":
-                    wrote.setdefault(unhx(t[4]), set()).add((t[3], unhx(t[5])))
+                elif t[0] in ("write", "write_hash") and res[0] == "ok":
+                    if t[0] == "write":
+                        wrote.setdefault(unhx(t[4]), set()).add((t[3], unhx(t[5])))
+                    # every operation's RESULT is that of some serial order: a write answers the integrity of ITS data
+                    a_, v_ = (t[3], unhx(t[5])) if t[0] == "write" else (t[3], unhx(t[4]))
+                    if len(res) > 1 and unhx(res[1]).decode(errors="replace") != L.sri_of(a_, v_):
+                        failures.append(Failure("wrong_result_concurrent", i, f"{op[:60]} answered {unhx(res[1]).decode(errors='replace')[:40]}, "
+                                                f"which is not the integrity of its own data ({fl})", sig={"op": t[0]}))
                 elif t[0] == "write" and res[0] != "ok":
                     failures.append(Failure("write_failed_concurrent", i, f"{op[:60]} -> {' '.join(res[:3])} ({fl})", sig={"op": "write"}))
                 elif t[0] in ("read", "read_hash") and res[0] == "ok":
